@@ -592,6 +592,105 @@ for kind, r in zip(UKINDS, run_parallel(UKINDS, udp_session_stalled, workers=3))
         chk.violation('stall.udp-session-not-read', f'blocked:api:{kind}', f'GET /live -> {r["api_live"]}, processes alive: {r["alive"]}', rp)
     samples.append({'udp_session_stalled': r})
 
+# ---- the access log goes to a sink that stops taking data (a FIFO whose reader stalls - a log shipper, a hung
+#      network file system): finished connections pile up behind it; new connections must still be served and every
+#      API call - log rotation included - must still be answered
+import fcntl
+def stalled_log_sink():
+    d = tempfile.mkdtemp(prefix='c14fifo-', dir=RUNDIR)
+    fifo = os.path.join(d, 'access.fifo')
+    os.mkfifo(fifo)
+    state = {'stall': False, 'read': 0, 'stop': False}
+    def reader():
+        fd = os.open(fifo, os.O_RDONLY)
+        try:
+            fcntl.fcntl(fd, 1031, 4096)   # F_SETPIPE_SZ
+        except OSError:
+            pass
+        while not state['stop']:
+            if state['stall']:
+                time.sleep(0.05)
+                continue
+            r, _, _ = select.select([fd], [], [], 0.1)
+            if r:
+                b = os.read(fd, 65536)
+                if not b:
+                    time.sleep(0.05)   # no writer at the moment (the proxy opens the file more than once)
+                    continue
+                state['read'] += len(b)
+        os.close(fd)
+    threading.Thread(target=reader, daemon=True).start()
+    q = {k: free_port() for k in ('http', 'socks', 'api')}
+    pxl = Proxy({'listeners': [{'name': 'http', 'bind': f"127.0.0.1:{q['http']}"}, {'name': 'socks', 'bind': f"127.0.0.1:{q['socks']}"}],
+                 'connectors': [{'name': 'direct'}], 'rules': [{'target': 'direct'}], 'accessLog': {'path': fifo, 'format': 'json'},
+                 'metrics': {'bind': f"127.0.0.1:{q['api']}", 'ui': None, 'historySize': 1000}}, 'c14l')
+    pxl.api_port = q['api']
+    if not pxl.start([q['http'], q['socks'], q['api']]):
+        state['stop'] = True
+        return {'error': 'proxy with a FIFO access log did not start: ' + pxl.log()[-300:]}
+    try:
+        def short(n):
+            ok = 0
+            for i in range(n):
+                try:
+                    s_, code, head, rest = http_connect(q['http'], f'127.0.0.1:{closed_port_l}', timeout=3)
+                    s_.close()
+                    ok += 1
+                except OSError:
+                    pass
+            return ok
+        short(5)
+        time.sleep(1.5)                                     # a collector pass hands the records to the log task
+        pxl.api('POST', '/logrotate', timeout=DEADLINE)    # ... whose writer is flushed by a rotation: the reader sees data while it still reads
+        time.sleep(0.5)
+        if state['read'] == 0:
+            return {'error': 'nothing arrived at the FIFO reader while it was reading'}
+        state['stall'] = True
+        answered = short(300)
+        time.sleep(2.5)                                     # two collector passes
+        res = {}
+        def probe(name, fn):
+            t = time.time()
+            try:
+                ok = fn()
+            except Exception as e:
+                ok = False
+            res[name] = (bool(ok), round(time.time() - t, 2))
+        def tunnel_http():
+            s_, code, head, rest = http_connect(q['http'], f'127.0.0.1:{echo.port}', timeout=DEADLINE)
+            s_.settimeout(DEADLINE); s_.sendall(b'ping'); r = recv_exact(s_, 4, DEADLINE); s_.close()
+            return code == 200 and r == b'ping'
+        def tunnel_socks():
+            s_, r = socks5_connect(q['socks'], '127.0.0.1', echo.port, timeout=DEADLINE)
+            s_.sendall(b'ping'); x = recv_exact(s_, 4, DEADLINE); s_.close()
+            return r['rep'] == 0 and x == b'ping'
+        probe('fresh:http', tunnel_http)
+        probe('fresh:socks5', tunnel_socks)
+        for name, method, path in (('api:GET /status', 'GET', '/status'), ('api:GET /live', 'GET', '/live'), ('api:GET /history', 'GET', '/history'),
+                                   ('api:GET /metrics', 'GET', '/metrics'), ('api:POST /logrotate', 'POST', '/logrotate'), ('api:GET /live (again)', 'GET', '/live')):
+            probe(name, lambda m=method, p_=path: pxl.api(m, p_, timeout=DEADLINE)[0] is not None)
+        return {'short_connections_answered': answered, 'probes': res, 'alive': pxl.alive()}
+    finally:
+        state['stop'] = True
+        state['stall'] = False
+        pxl.stop()
+
+import select, tempfile
+closed_port_l = free_port()
+r = stalled_log_sink()
+evals += 1
+if 'error' in r:
+    machinery(f'stalled log sink: {r}')
+for name, (ok, dt) in r['probes'].items():
+    distinct.add(('stalled-log-sink', name, ok))
+    if not ok:
+        chk.violation('stall.access-log-sink', f'blocked:{name}', f'with the access log going to a FIFO whose reader has stalled and 300 finished connections behind it, {name}: no answer within {DEADLINE} s (took {dt} s)', {'probe': name, 'result': {k: list(v) for k, v in r["probes"].items()}})
+if r['short_connections_answered'] < 300:
+    chk.violation('stall.access-log-sink', 'blocked:short-connections', f'only {r["short_connections_answered"]} of 300 short connections were answered once the log sink had stalled', {})
+if not r['alive']:
+    chk.violation('process', 'proxy-died:stalled-log-sink', 'the proxy ended', {})
+samples.append({'stalled_log_sink': {k: (list(v) if isinstance(v, tuple) else v) for k, v in r['probes'].items()}})
+
 # ---- teardown of tunnels that are blocked on a slow peer: with timeouts.idle = 2 the proxy itself ends 32 tunnels
 #      whose peer has stopped reading (unsent bytes queued); while it does so everything else must keep being served
 for splice in (True, False):
